@@ -77,15 +77,22 @@ Definition col_might_match (c : zcol) (op : cmpop) (v : val) : bool :=
   let z := zone_of (zhist c) in
   match op with
   | OEq => z_eq z v
-  | ONe => match zmin z, zmax z with
-           | Some mn, Some mx =>
-               negb (match zcmp mn v, zcmp mx v with Some Eq, Some Eq => true | _, _ => false end)
-           | _, _ => true
-           end
+  | ONe => true        (* since 1879631; before: min = max = v pruned, see [col_might_match_pre] *)
   | OLt => z_lt z v false
   | OLe => z_lt z v true
   | OGt => z_gt z v false
   | OGe => z_gt z v true
+  end.
+Definition col_might_match_pre (c : zcol) (op : cmpop) (v : val) : bool :=
+  match op with
+  | ONe => if zdirty c then true else
+           let z := zone_of (zhist c) in
+           match zmin z, zmax z with
+           | Some mn, Some mx =>
+               negb (match zcmp mn v, zcmp mx v with Some Eq, Some Eq => true | _, _ => false end)
+           | _, _ => true
+           end
+  | _ => col_might_match c op v
   end.
 (** LpgStore::node_property_might_match: no column = might match *)
 Definition node_might_match (st : store) (k : string) (op : cmpop) (v : val) : bool :=
@@ -435,7 +442,9 @@ Fixpoint runc (o : opts) (st : store) (p : lop) : res tbl * option chain :=
                       | None => generic
                       end
             end, None)
-  | LReturn items _ input => (do t <- fst (runc o st input); return_tbl st items t, None)
+  | LReturn items distinct input =>
+      (do t <- fst (runc o st input); do r <- return_tbl st items t;
+       if distinct then Ok (mkT (cols r) (distinct_rows (rows r))) else Ok r, None)
   | LProject items input => (do t <- fst (runc o st input); project_tbl st items t, None)
   | LSort keys input =>
       (do t <- fst (runc o st input);
